@@ -88,6 +88,22 @@ CHECKS = {
         "and the coherence of all views with that affine: pix2wld at the corners, wld2pix inverse, footprint = image of the pixel rectangle, bounding box, axis labels = pixel centres, resolution. The "
         "same transitions (supported operations) are run on GCPGeoBoxes whose control points are generated by the exact affine.",
    ref="5/C02", note=TB + "GCP boxes with control points that are not affinely related are not covered (fit accuracy); resolution of rotated boxes is covered in C20 (decompose_rws)"),
+ "C03": dict(
+   technique="TLA+ exact-rational model of reprojection planning (ReprojPlan) with a first-principles needed-pixel set, checked by TLC; real compute_reproject_roi / compute_axis_overlap outputs validated by TLC; cross-CRS plans validated against a pyproj-tabulated transform (CrossPlan)",
+   text="The needed set is defined from first principles (destination pixel centres mapping inside the source image, exact rationals over 960); TLC checks that the transcribed exact-paste plan and the "
+        "sampled-path source region contain it for every case of the domain (11 scales incl. fractional and mirrored, shifts with residues on both sides of the tolerance, rotations, placements from contained "
+        "to disjoint, padding/align options) and emits the cases. The real planner runs on GeoBox pairs realising exactly those rational maps; TLC evaluates on the returned ReprojectInfo: regions in bounds "
+        "(source up to the next multiple of read-shrink), every needed pixel in the destination region and its source location in the source region, separated rasters give empty regions, scale = min pixel-size "
+        "ratio, read-shrink bound - and compares with the model (dyadic cases). compute_axis_overlap is also driven directly with arbitrary scale/translation. For 7 pairs of different CRSs TLC checks the plan "
+        "against a table of destination-centre -> source position computed with a fresh pyproj transformer.",
+   ref="5/C03", note=TB + "cross-CRS: PROJ is an environment table, small rasters (low curvature); separation margin is padding+1 (+align) pixels"),
+ "C10": dict(
+   technique="TLA+ model of paste eligibility and of paste / nearest-neighbour images (ReprojPlan) checked by TLC; TLC performs the paste from the real plan and compares it with the GDAL nearest-neighbour image logged from rio_reproject",
+   text="For every same-CRS pair of the C03 domain TLC checks on the real ReprojectInfo that paste-ability is reported only for scale+translation maps with an integer scale equal on both axes and a "
+        "whole-pixel shift within the tolerance (never with padding/align, rotation, fractional scale), and that for read-shrink > 1 the source region is the destination region times the factor. Where paste is "
+        "reported with shrink 1, the harness warps an image of unique ids with GDAL (nearest) in one of 8 dtypes incl. int8/bool, and TLC itself performs the paste from the logged plan (mirroring included) and "
+        "requires pixel identity with the GDAL image, and checks GDAL against the first-principles nearest-neighbour model.",
+   ref="5/C10", note=TB + "GDAL nearest-neighbour is the oracle named by the property; exact half-pixel ties are skipped (GDAL-defined)"),
 }
 
 NOT_YET = "check not built yet (work in progress); see DESIGN.md"
